@@ -13,6 +13,7 @@ import (
 	"flag"
 	"fmt"
 	"os"
+	"runtime"
 	"sort"
 	"strings"
 	"sync/atomic"
@@ -32,6 +33,7 @@ type Gen struct {
 	sample   [][2]string  // reservoir of (op, args) re-executed in shuffled order at the end
 	seen     int
 	noSample bool
+	slow     []slowCase            // the slowest cases of the run (see noteSlow)
 	pairs    map[string]*[2]string // (op, k, arg k) -> two different cases sharing argument k (see notePair)
 	Stats    map[string]int
 	Exhaust  []string // names of finite sub-domains enumerated completely
@@ -61,7 +63,15 @@ func (g *Gen) Case(op, args, key string, f func() string) {
 	if g.Sync {
 		fmt.Fprintf(os.Stderr, "PENDING\t%s\t%s\n", op, args)
 	}
+	guardReset()
+	t0 := time.Now()
 	obs := try(f)
+	if !g.noSample && len(args) < 20000 {
+		g.noteSlow(op, args, time.Since(t0))
+	}
+	if !guardsIntact() {
+		obs = "[P,-7777777]" // the callee wrote beyond the length of an argument slice (into its spare capacity)
+	}
 	atomic.StoreInt64(&g.started, 0)
 	g.out.WriteString(op)
 	g.out.WriteByte('\t')
@@ -87,11 +97,56 @@ func (g *Gen) rerunSample() {
 		j := g.R.Intn(i + 1)
 		s[i], s[j] = s[j], s[i]
 	}
-	for _, c := range s {
+	// the shuffled re-run also varies GOMAXPROCS (3, 33, 97, then the default again): code that splits work by the number
+	// of procs (chunk sizes, worker counts clamped after the fact) behaves differently for values nobody tests with
+	def := runtime.GOMAXPROCS(0)
+	procs := []int{3, 33, 97, def}
+	for i, c := range s {
+		if i%((len(s)+3)/4+1) == 0 {
+			runtime.GOMAXPROCS(procs[(i/((len(s)+3)/4+1))%4])
+		}
 		g.Do(c[0], c[1], "")
 	}
+	runtime.GOMAXPROCS(def)
 	g.Stats["rerun-shuffled"] = len(s)
 	g.rerunPairs()
+	// the slowest cases of the run (= the biggest inputs) once more under each odd GOMAXPROCS value, within a time budget
+	start := time.Now()
+	n := 0
+	for _, pr := range []int{3, 33, 97} {
+		runtime.GOMAXPROCS(pr)
+		for _, c := range g.slow {
+			if time.Since(start) > 25*time.Second {
+				break
+			}
+			g.Do(c.op, c.args, "")
+			n++
+		}
+	}
+	runtime.GOMAXPROCS(def)
+	g.Stats["rerun-slowest-gomaxprocs"] = n
+}
+
+type slowCase struct {
+	op, args string
+	d        time.Duration
+}
+
+// noteSlow keeps the 16 slowest distinct cases of the run.
+func (g *Gen) noteSlow(op, args string, d time.Duration) {
+	if len(g.slow) == 16 && d <= g.slow[len(g.slow)-1].d {
+		return
+	}
+	for _, c := range g.slow {
+		if c.op == op && c.args == args {
+			return
+		}
+	}
+	g.slow = append(g.slow, slowCase{op, args, d})
+	sort.Slice(g.slow, func(i, j int) bool { return g.slow[i].d > g.slow[j].d })
+	if len(g.slow) > 16 {
+		g.slow = g.slow[:16]
+	}
 }
 
 // rerunPairs replays pairs of cases of this run that share ONE argument (same index at two heights, same bitmap at two
